@@ -307,6 +307,9 @@ func (d *Decoder) readTypedList(tag byte) (interface{}, error) {
 	}
 
 	holder.complete = true
+	// whoever referred to the list while it was being read (an element that points back to it) gets it now: a list
+	// that is not the value of a struct field - a top-level list, a list element, a map value - has nobody else to do it
+	holder.notify()
 	return holder, nil
 }
 
@@ -374,5 +377,8 @@ func (d *Decoder) readUntypedList(tag byte) (interface{}, error) {
 	}
 
 	holder.complete = true
+	// whoever referred to the list while it was being read (an element that points back to it) gets it now: a list
+	// that is not the value of a struct field - a top-level list, a list element, a map value - has nobody else to do it
+	holder.notify()
 	return holder, nil
 }
